@@ -262,6 +262,17 @@ func raceChildMain(args []string) int {
 				m := shared[r.Intn(len(shared))]
 				func() {
 					defer func() { recover() }()
+					if c, ok := m.(*didtypes.MsgCreateDIDRequest); ok && c.Document != nil && len(c.Document.VerificationMethods) > 0 && r.Chance(0.5) {
+						// a private copy with a verification-method type nobody has used before (legal: the type list is open):
+						// validation code that remembers what it has seen does so in state shared by every goroutine
+						if bz, err := c.Marshal(); err == nil {
+							var own didtypes.MsgCreateDIDRequest
+							if own.Unmarshal(bz) == nil && own.Document != nil && len(own.Document.VerificationMethods) > 0 && own.Document.VerificationMethods[0] != nil {
+								own.Document.VerificationMethods[0].Type = fmt.Sprintf("FutureKey%dVerificationKey20%02d", r.Intn(1<<30), r.Intn(99))
+								_ = own.ValidateBasic()
+							}
+						}
+					}
 					if m.ValidateBasic() == nil {
 						_ = m.GetSigners()
 					}
